@@ -42,27 +42,43 @@ unlock() has not returned since.
  MUTEX      after every step  |holders| <= 1.
  UNLOCK     unlock() called by the holder returns without raising ...
  RELEASED   ... and afterwards the name is not a link to the ex-holder's pid.
- ACQUIRABLE in every reachable state in which the name is absent, or names a
-            pid that is not a live process, and nobody holds the lock: a process
-            that now starts lock() and is scheduled alone gets True after a
-            bounded number of call-outs ("a lock left by a dead process can
-            eventually be acquired"; same for a free lock).
+ ACQUIRABLE in every reachable QUIESCENT state (no process is inside a call) in
+            which the name is absent, or names a pid that is not a live process,
+            and nobody holds the lock: a process that now calls lock() and is
+            scheduled alone gets a true result from one of at most 3 calls in a
+            row, each ending after at most 64 call-outs ("a lock left by a dead
+            process can eventually be acquired"; same for a free lock).  Non
+            quiescent states are exempt on purpose: a protocol may legitimately
+            answer False while somebody else is half way through breaking the
+            stale lock.
+ TERMINATES in every reachable state, a process scheduled alone gets to the end
+            of the call it is in (or about to make) within 64 call-outs: lock()
+            answers, it does not wait; unlock() "can always release".  (This
+            is also what keeps the search finite: a process that fails it is
+            not stepped any further.)
  (lock() returning False spuriously under contention, `clean`, and whatever a
  non-holder's unlock() raises are NOT judged: the property does not speak of
- them.)
+ them.  Nothing beyond the first violation on a path is judged.)
 
 Failure strings start with a stable tag.  When several kinds are found in one
-scenario they are joined with " || ", MUTEX[stale-break-race] always last, so a
-string that *starts with* that tag reports nothing else.
+scenario they are joined with " || "; the two [stale-break-race] kinds always
+come last, so a string that *starts with* one of them reports nothing else:
+    all(p.startswith(("MUTEX[stale-break-race]", "UNLOCK-FAILED[stale-break-race]"))
+        for p in what.split(" || "))
+is the region "only the stale-lock breaking race".
 
-   MUTEX[stale-break-race]  two holders; on the way a lock() call removed
-                            (rmlink) a link that at that moment named a LIVE pid
-   MUTEX[other]             two holders, any other way
-   UNLOCK-FAILED            the holder's unlock() raised
-   NOT-RELEASED             the holder's unlock() returned, link still its own
-   NOT-ACQUIRABLE[stale]    solo lock() on a stale link did not return True
-   NOT-ACQUIRABLE[free]     solo lock() on an absent link did not return True
-   NONTERMINATION           a solo call needed more than 64 call-outs
+   MUTEX[stale-break-race]   two holders; on the way a lock() call removed
+                             (rmlink) a link that at that moment named a LIVE pid
+   MUTEX[other]              two holders, any other way
+   UNLOCK-FAILED[stale-break-race]  the holder's unlock() raised, after a lock()
+                             call of somebody else removed a live pid's link
+   UNLOCK-FAILED[other]      the holder's unlock() raised, any other way
+   NOT-RELEASED              the holder's unlock() returned, link still its own
+   NOT-ACQUIRABLE[stale]     solo lock() x3 on a stale link never returned True
+   NOT-ACQUIRABLE[free]      solo lock() x3 on an absent link never returned True
+   NONTERMINATION            a process scheduled alone made 64 call-outs without
+                             getting to the end of its call
+([...-race] / [other] is a diagnosis added for triage, it is not part of the oracle.)
 """
 from __future__ import annotations
 
@@ -77,8 +93,9 @@ from twisted.python import lockfile as _lf
 
 LOCK = "/ghost/spool/the.lock"
 DEAD_PID = 999  # never a live process in any scenario
-PIDS = (101, 102, 103, 104)
-SOLO_LIMIT = 64
+PIDS = (101, 102, 103, 104, 105)
+SOLO_LIMIT = 64      # call-outs one solo call may make
+SOLO_ATTEMPTS = 3    # consecutive solo lock() calls of which one has to succeed ("eventually")
 STATE_LIMIT = 400000
 
 _ERRNAME = {errno.EEXIST: "EEXIST", errno.ENOENT: "ENOENT", errno.ESRCH: "ESRCH"}
@@ -194,6 +211,7 @@ class Engine:
     def __init__(self):
         self.cur_pid = None
         self.depth = 0
+        self._spin_cache = {}
 
     def __enter__(self):
         if getattr(_lf, "_windows", False):
@@ -283,7 +301,7 @@ class Engine:
             text += " %s(%s)->%s" % (op, shown, (repr(out[1]) if out[1] is not None else "ok") if out[0] == "ret"
                                      else _ERRNAME.get(out[1], out[1]))
             ev.update(op=op, out=out)
-            if act == "L" and op == "rmlink" and out[0] == "ret":
+            if act == "L" and op == "rmlink" and out[0] == "ret" and args[0] == LOCK:
                 try:
                     victim = int(self.link_before)
                 except (TypeError, ValueError):
@@ -316,22 +334,50 @@ class Engine:
         ev["text"] = text
         return (new_fs, dead, procs[:k] + (nproc,) + procs[k + 1:]), ev, verdicts
 
-    def solo_lock(self, state, k):
-        """Process k (about to start lock()) is scheduled alone until the call is over.
-        Returns (verdict or None, events)."""
+    def solo_acquire(self, state, k, attempts=SOLO_ATTEMPTS):
+        """Process k (between calls) is scheduled alone and calls lock() up to `attempts` times in a row;
+        one of them has to return a true value.  Returns (verdict or None, events)."""
         events = []
         link = _link(state)
         kind = "free" if link is None else "stale"
-        pos = state[2][k][2]
+        fs_items, dead, procs = state
+        pid, _script, _pos, _hist, holding, objstate = procs[k]
+        state = (fs_items, dead, procs[:k] + ((pid, "L" * attempts, 0, (), holding, objstate),) + procs[k + 1:])
+        for _attempt in range(attempts):
+            pos = state[2][k][2]
+            for _ in range(SOLO_LIMIT):
+                state, ev, _v = self.advance(state, k)
+                events.append(ev)
+                if state[2][k][2] != pos:  # the call is over
+                    break
+            else:
+                return "NONTERMINATION", events
+            if state[2][k][4]:
+                return None, events
+        return "NOT-ACQUIRABLE[%s]" % kind, events
+
+    def spins(self, state, k):
+        """Process k, scheduled alone from `state`, does not get to the end of its current call within SOLO_LIMIT
+        call-outs.  Returns the events of the attempt if so, else None.  (The answer depends only on the world
+        and on process k, and is cached per implementation under test.)"""
+        fs_items, dead, procs = state
+        key = (fs_items, _alive(state), procs[k], _lf.FilesystemLock.lock, _lf.FilesystemLock.unlock)
+        hit = self._spin_cache.get(key)
+        if hit is not None:
+            return hit or None
+        pos = procs[k][2]
+        events = []
+        s = state
         for _ in range(SOLO_LIMIT):
-            state, ev, _v = self.advance(state, k)
+            s, ev, _v = self.advance(s, k)
             events.append(ev)
-            p = state[2][k]
-            if not p[3] and p[2] != pos:  # the call is over
-                if p[4]:
-                    return None, events
-                return "NOT-ACQUIRABLE[%s]" % kind, events
-        return "NONTERMINATION", events
+            if s[2][k][2] != pos:
+                events = False
+                break
+        if len(self._spin_cache) > 300000:
+            self._spin_cache.clear()
+        self._spin_cache[key] = events
+        return events or None
 
 
 def _exc_text(e):
@@ -341,9 +387,10 @@ def _exc_text(e):
 
 
 def _acquirable_pre(state, k):
-    """Process k is about to start a fresh lock() and the property promises it can get the lock."""
+    """The world is quiescent (no process is inside a call), the link is absent or names a pid that is not
+    alive, nobody holds the lock, and process k is about to call lock(): the property promises it can get it."""
     pid, script, pos, hist, holding, _ = state[2][k]
-    if hist or script[pos] != "L" or holders(state):
+    if script[pos] != "L" or holders(state) or any(p[3] for p in state[2]):
         return False
     link = _link(state)
     if link is None:
@@ -357,12 +404,20 @@ def _acquirable_pre(state, k):
 
 ENGINE = Engine()
 
-_TAG_ORDER = ["NONTERMINATION", "UNLOCK-FAILED", "NOT-RELEASED", "NOT-ACQUIRABLE[free]", "NOT-ACQUIRABLE[stale]",
-              "MUTEX[other]", "MUTEX[stale-break-race]"]
+_TAG_ORDER = ["NONTERMINATION", "UNLOCK-FAILED[other]", "NOT-RELEASED", "NOT-ACQUIRABLE[free]", "NOT-ACQUIRABLE[stale]",
+              "MUTEX[other]", "UNLOCK-FAILED[stale-break-race]", "MUTEX[stale-break-race]"]
+
+
+def _caused(kind, events):
+    """MUTEX / UNLOCK-FAILED are sub-tagged by whether a lock() call removed a live process's link on the way
+    (a diagnosis for triage, not part of the oracle)."""
+    if kind in ("MUTEX", "UNLOCK-FAILED"):
+        return "%s[%s]" % (kind, "stale-break-race" if any("broke_live" in e for e in events) else "other")
+    return kind
 
 
 def _mutex_tag(events):
-    return "MUTEX[stale-break-race]" if any("broke_live" in e for e in events) else "MUTEX[other]"
+    return _caused("MUTEX", events)
 
 
 def _render(found):
@@ -395,13 +450,21 @@ def explore(scenario, engine=ENGINE, state_limit=STATE_LIMIT):
             raise HarnessError("bad scenario")
         while queue:
             s = queue.popleft()
-            en = enabled(s)
+            en = []
+            for k in enabled(s):
+                spin = engine.spins(s, k)
+                if spin:
+                    if "NONTERMINATION" not in found:
+                        found["NONTERMINATION"] = ("P%d scheduled alone makes %d call-outs without finishing its call"
+                                                   % (k + 1, len(spin)), trace(s) + spin[:8])
+                else:
+                    en.append(k)  # (a spinning process is not stepped any further: keeps the search finite)
             for k in en:
                 if _acquirable_pre(s, k):
-                    verdict, evs = engine.solo_lock(s, k)
+                    verdict, evs = engine.solo_acquire(s, k)
                     if verdict is not None and verdict not in found:
-                        found[verdict] = ("P%d scheduled alone (link %r, owner not alive)" % (k + 1, _link(s)),
-                                          trace(s) + evs)
+                        found[verdict] = ("P%d scheduled alone, nobody inside a call (link %r, owner not alive)"
+                                          % (k + 1, _link(s)), trace(s) + evs)
             for k in en:
                 t, ev, verdicts = engine.advance(s, k)
                 transitions += 1
@@ -413,9 +476,11 @@ def explore(scenario, engine=ENGINE, state_limit=STATE_LIMIT):
                         found[tag] = ("pids %s hold the lock together" % (h,), evs)
                     continue  # nothing beyond a violation is judged
                 if verdicts:
+                    evs = trace(s) + [ev]
                     for v in verdicts:
+                        v = _caused(v, evs)
                         if v not in found:
-                            found[v] = ("(pid %d)" % ev["pid"], trace(s) + [ev])
+                            found[v] = ("(pid %d)" % ev["pid"], evs)
                     continue
                 if t not in parent:
                     parent[t] = (s, ev)
@@ -433,18 +498,22 @@ def run_schedule(scenario, schedule, engine=ENGINE, newcomer=True):
         for k in schedule:
             if k not in enabled(s):
                 raise Bounded.Skip()
+            spin = engine.spins(s, k)
+            if spin:
+                return _render({"NONTERMINATION": ("P%d scheduled alone makes %d call-outs without finishing its call"
+                                                   % (k + 1, len(spin)), events + spin[:8])})
             if _acquirable_pre(s, k):
-                verdict, evs = engine.solo_lock(s, k)
+                verdict, evs = engine.solo_acquire(s, k)
                 if verdict is not None:
-                    return _render({verdict: ("P%d scheduled alone (link %r, owner not alive)" % (k + 1, _link(s)),
-                                              events + evs)})
+                    return _render({verdict: ("P%d scheduled alone, nobody inside a call (link %r, owner not alive)"
+                                              % (k + 1, _link(s)), events + evs)})
             s, ev, verdicts = engine.advance(s, k)
             events.append(ev)
             h = holders(s)
             if len(h) > 1:
                 return _render({_mutex_tag(events): ("pids %s hold the lock together" % (h,), events)})
             if verdicts:
-                return _render({verdicts[0]: ("(pid %d)" % ev["pid"], events)})
+                return _render({_caused(verdicts[0], events): ("(pid %d)" % ev["pid"], events)})
         if newcomer and not enabled(s) and not holders(s):
             # everybody is done and nobody holds the lock: a newcomer must be able to take it
             link = _link(s)
@@ -459,7 +528,7 @@ def run_schedule(scenario, schedule, engine=ENGINE, newcomer=True):
                 obj = _lf.FilesystemLock(LOCK)
                 new = (PIDS[len(procs)], "L", 0, (), False, tuple(sorted(obj.__dict__.items())))
                 s2 = (fs_items, dead, procs + (new,))
-                verdict, evs = engine.solo_lock(s2, len(procs))
+                verdict, evs = engine.solo_acquire(s2, len(procs))
                 if verdict is not None:
                     return _render({verdict: ("a newcomer after everybody finished (link %r)" % (link,), events + evs)})
         return None
@@ -479,6 +548,10 @@ def all_schedules(scenario, engine=ENGINE, limit=None):
                     return out, False
                 continue
             for k in reversed(en):
+                if engine.spins(s, k):
+                    # never ending call: the schedule stops here (run_schedule reports it), keeps the tree finite
+                    out.append(sched + (k,))
+                    continue
                 t, _ev, _v = engine.advance(s, k)
                 stack.append((t, sched + (k,)))
     return out, True
@@ -604,32 +677,58 @@ class LockEverySchedule(Bounded):
     title = ("the same real lock/unlock code and oracle, one case per complete schedule (no state merging): every "
              "maximal interleaving of the call-outs of 2 processes is run separately, and at its end a newcomer must "
              "be able to take the lock")
-    scope = ("2 processes, scripts from {L, Lu, LU, LD, UL, LuLu} (unordered pairs), initial world free / stale / held "
-             "by process 1 (then process 1 runs u, D or uL); every maximal schedule enumerated depth-first; thorough "
-             "adds 3 processes over {L, Lu} on free and stale worlds (capped at 30000 schedules per scenario) and "
+    scope = ("2 processes, scripts from {L, Lu, LU, LD, UL} (unordered pairs), initial world free / stale / held by "
+             "process 1 (which then runs u, U, D, uL or L); every maximal schedule enumerated depth-first, each one a "
+             "case; thorough adds the scripts LuLu and LuD, 3 processes over {L, Lu} on free / stale / held worlds "
+             "(a scenario with more than 30000 maximal schedules is sampled: 4000 seeded random schedules) and 3000 "
              "seeded random schedules of 3-4 processes with scripts of up to 4 calls")
     functions = ["FilesystemLock.lock", "FilesystemLock.unlock"]
 
-    FAMILY = ["L", "Lu", "LU", "LD", "UL", "LuLu"]
+    FAMILY = ["L", "Lu", "LU", "LD", "UL"]
+    CAP = 30000       # scenarios with more maximal schedules than this are sampled instead
+    SAMPLE = 4000
 
     def scenarios(self, tier):
+        fam = self.FAMILY + (["LuLu", "LuD"] if tier == "thorough" else [])
         out = []
         for init in ("free", "stale"):
-            for pr in itertools.combinations_with_replacement(self.FAMILY, 2):
+            for pr in itertools.combinations_with_replacement(fam, 2):
                 out.append((init, pr))
         for a in ("u", "U", "D", "uL", "L"):
-            for b in self.FAMILY:
+            for b in fam:
                 out.append(("held", (a, b)))
         if tier == "thorough":
             for init in ("free", "stale"):
                 for tr in itertools.combinations_with_replacement(["L", "Lu"], 3):
                     out.append((init, tr))
+            for a in ("u", "D"):
+                for pr in itertools.combinations_with_replacement(["L", "Lu"], 2):
+                    out.append(("held", (a,) + pr))
         return out
+
+    @staticmethod
+    def random_schedule(sc, rng):
+        """A random maximal schedule, drawn while running the scenario."""
+        with ENGINE:
+            s = initial_state(sc)
+            sched = []
+            while True:
+                en = enabled(s)
+                if not en or len(sched) > 300:
+                    break
+                k = rng.choice(en)
+                sched.append(k)
+                if ENGINE.spins(s, k):
+                    break
+                s, _ev, _v = ENGINE.advance(s, k)
+        return tuple(sched)
 
     def cases(self, tier, rng):
         for sc in self.scenarios(tier):
-            scheds, _complete = all_schedules(sc, limit=30000)
             flag = "stale-race-possible" if _may_race_on_stale(sc) else "-"
+            scheds, complete = all_schedules(sc, limit=self.CAP)
+            if not complete:
+                scheds = sorted({self.random_schedule(sc, rng) for _ in range(self.SAMPLE)})
             for s in scheds:
                 yield (sc[0], sc[1], flag, s)
         if tier != "thorough":
@@ -637,19 +736,13 @@ class LockEverySchedule(Bounded):
         s4 = scripts_upto(4)
         for _ in range(3000):
             n = rng.choice((3, 4))
-            sc = (rng.choice(("free", "stale", "held")), tuple(rng.choice(s4) for _ in range(n)))
-            # a random maximal schedule, drawn while running
-            with ENGINE:
-                s = initial_state(sc)
-                sched = []
-                while True:
-                    en = enabled(s)
-                    if not en or len(sched) > 200:
-                        break
-                    k = rng.choice(en)
-                    s, _ev, _v = ENGINE.advance(s, k)
-                    sched.append(k)
-            yield (sc[0], sc[1], "stale-race-possible" if _may_race_on_stale(sc) else "-", tuple(sched))
+            init = rng.choice(("free", "stale", "held"))
+            scripts = tuple(rng.choice(s4) for _ in range(n))
+            if init == "held":
+                scripts = (rng.choice(HELD_FIRST),) + scripts[1:]
+            sc = (init, scripts)
+            yield (init, scripts, "stale-race-possible" if _may_race_on_stale(sc) else "-",
+                   self.random_schedule(sc, rng))
 
     def nontrivial(self, case):
         return len(set(case[3])) >= 2
